@@ -241,6 +241,11 @@ def exhaustive(tier):
     yield from exhaustive_lookups()
     yield from exhaustive_equivalent_keys(tier)
     yield from exhaustive_nested_values()
+    # queries with raw spellings of stored items (and of absent ones), per normalising item field
+    for item, stored, probes in (("int", [80, 443, 80], ["80", " 80", 80.0, "443", "81", True, "x"]), ("str", ["ALICE", "BOB"], ["alice", " ALICE ", "Alice", "bob\n", "carol"]),
+                                 ("bool", [True, False], ["true", "yes", "0", 1, 0, "x"])):
+        for v in probes:
+            yield {"kind": "list", "item": item, "init": list(stored), "ops": [{"op": "query", "i": 0, "s": (None, None, None), "v": v}]}
 
 
 def exhaustive_equivalent_keys(tier):
@@ -483,12 +488,21 @@ def _run_list(case, R):
         elif name == "clear":
             compare(name, _outcome(L.clear), _outcome(M.clear))
         elif name == "query":
-            v = norm(kind, op["v"])
+            try:
+                v = norm(kind, op["v"])
+            except Exception:
+                v = op["v"]  # (not a value of the item field at all: asked about as it is)
             compare("getitem", _outcome(lambda: L[op["i"]]), _outcome(lambda: M[op["i"]]))
             compare("getslice", _outcome(lambda: list(L[sl(op["s"])])), _outcome(lambda: M[sl(op["s"])]))
             compare("index", _outcome(lambda: L.index(v)), _outcome(lambda: M.index(v)))
             compare("count", _outcome(lambda: L.count(v)), _outcome(lambda: M.count(v)))
             compare("contains", _outcome(lambda: v in L), _outcome(lambda: v in M))
+            # ... and with the argument AS GIVEN (a raw spelling such as "80" for 80): a query validates nothing, it answers
+            # what the built-in list of the stored items answers
+            raw = op["v"]
+            compare("index:raw", _outcome(lambda: L.index(raw)), _outcome(lambda: M.index(raw)))
+            compare("count:raw", _outcome(lambda: L.count(raw)), _outcome(lambda: M.count(raw)))
+            compare("contains:raw", _outcome(lambda: raw in L), _outcome(lambda: raw in M))
             compare("eq", _outcome(lambda: L == list(M)), ("ok", True))
             compare("iter", _outcome(lambda: [x for x in L]), ("ok", list(M)))
             compare("reversed", _outcome(lambda: list(reversed(L))), ("ok", list(reversed(M))))
